@@ -145,6 +145,36 @@ def _xfail_decorator() -> cst.Decorator:
     )
 
 
+class _PytestReferenceFinder(cst.CSTVisitor):
+    """Detects whether a CST node references the name ``pytest``."""
+
+    def __init__(self) -> None:
+        self.found = False
+
+    def visit_Name(self, node: cst.Name) -> bool:  # noqa: N802
+        if node.value == "pytest":
+            self.found = True
+        return not self.found
+
+
+def _references_pytest(node: cst.CSTNode) -> bool:
+    """Check whether the rendered code of ``node`` refers to ``pytest``.
+
+    Besides the ``pytest.raises``/``pytest.mark.xfail`` constructs the writer emits
+    itself, rendered assertions (``pytest.approx`` for float values) and raw seed
+    code may use ``pytest`` as well; all of them need the import.
+
+    Args:
+        node: The node to inspect.
+
+    Returns:
+        True if a ``pytest`` name occurs in the node.
+    """
+    finder = _PytestReferenceFinder()
+    node.visit(finder)
+    return finder.found
+
+
 def _public_sut_names(module: object, module_alias: str) -> list[str]:
     """Return the SUT module's public names, sorted.
 
@@ -443,6 +473,10 @@ class TestSuiteWriter:
             if any(e is not None for e in exc_types):
                 needs_pytest = True
             func, func_used_exc_types = self._build_test_function(idx, tc, exc_types)
+            if _references_pytest(func):
+                # E.g. a float assertion rendered as ``pytest.approx(...)`` in a test
+                # without any exception.
+                needs_pytest = True
             used_exc_types.update(func_used_exc_types)
             functions.append(func)
 
